@@ -193,6 +193,18 @@ EXC = {
 }
 
 
+def _compiled_syntax_error(msg):
+    """a SyntaxError as the compiler raises it (file name, line, offset, text):
+    format_exception_only prints a '  File "...", line N' line for it"""
+    try:
+        compile('def f(:\n    pass\n', '<generated: %s>' % msg[:20], 'exec')
+    except SyntaxError as e:
+        return e
+
+
+EXC['CompiledSyntaxError'] = _compiled_syntax_error
+
+
 def raise_chained(exc, msg, chain=None):
     """raise exc(msg), optionally with __cause__ / __context__ set"""
     if chain == 'cause':
@@ -417,11 +429,16 @@ class ThreadBook:
         keeps the object threading made up for an adopted low-level thread
         for ever, and a thread of the next job that is handed the same ident
         would be born under that old name"""
+        active = getattr(threading, '_active', None)
+        lock = getattr(threading, '_active_limbo_lock', None)
+        if active is None or lock is None:  # pragma: no cover
+            return
         running = set(sys._current_frames())
-        with threading._active_limbo_lock:
-            for ident, t in list(threading._active.items()):
-                if ident not in running and ident in self.idents.values():
-                    del threading._active[ident]
+        mine = set(self.idents.values())
+        with lock:
+            for ident in list(active):
+                if ident not in running and ident in mine:
+                    del active[ident]
 
 
 # ---------------------------------------------------------------- the world
